@@ -20,7 +20,7 @@ import time
 VERIF = os.path.dirname(os.path.dirname(os.path.abspath(__file__)))
 REPO = os.environ.get("VERIF_REPO", "/repo")
 SPEC = os.path.join(VERIF, "spec")
-CACHE = os.path.join(VERIF, ".cache")
+CACHE = os.environ.get("VERIF_CACHE") or os.path.join(VERIF, ".cache")
 EVID = os.environ.get("VERIF_EVIDENCE_DIR") or os.path.join(VERIF, "evidence")
 TLA_CP = "/opt/veriftools/tla/tla2tools.jar:/opt/veriftools/tla/CommunityModules-deps.jar"
 NCPU = os.cpu_count() or 8
@@ -139,10 +139,15 @@ def cache_dir():
     d = os.path.join(CACHE, "repo-" + rh)
     if not os.path.isdir(d):
         with Lock("evict"):
-            for old in glob.glob(os.path.join(CACHE, "repo-*")):
-                if old != d:
-                    shutil.rmtree(old, ignore_errors=True)
+            olds = sorted((p for p in glob.glob(os.path.join(CACHE, "repo-*")) if p != d), key=os.path.getmtime)
+            for old in olds[:-3]:          # keep the three most recently used trees besides this one
+                shutil.rmtree(old, ignore_errors=True)
             os.makedirs(d, exist_ok=True)
+    else:
+        try:
+            os.utime(d)
+        except OSError:
+            pass
     return d
 
 
@@ -363,7 +368,13 @@ def build_tool(name):
     with Lock("build-" + name):
         if os.path.exists(out):
             return out
-        r = subprocess.run(["go", "build", "-o", out + ".tmp", "./" + name], cwd=os.path.join(VERIF, "harness"),
+        hdir = os.path.join(VERIF, "harness")
+        if REPO != "/repo":       # the harness module pins the repository path in a replace directive
+            hdir = os.path.join(scratch("verif-harness-"), "harness")
+            shutil.copytree(os.path.join(VERIF, "harness"), hdir)
+            gm = open(os.path.join(hdir, "go.mod")).read().replace("=> /repo", "=> " + REPO)
+            open(os.path.join(hdir, "go.mod"), "w").write(gm)
+        r = subprocess.run(["go", "build", "-o", out + ".tmp", "./" + name], cwd=hdir,
                            env=go_env(), capture_output=True, text=True)
         if r.returncode != 0:
             raise Infra(f"go build of harness/{name} against /repo failed (the change does not compile?):\n" + r.stdout + r.stderr)
